@@ -5,6 +5,7 @@ package beaconblock
 
 import (
 	"bufio"
+	"context"
 	"encoding/hex"
 	"fmt"
 	"math/rand"
@@ -230,6 +231,60 @@ func genPieces(o hreg.Opts, w *bufio.Writer) error {
 					fmt.Fprintf(w, "withdrawals %s %s\n", cfgToks, g.String())
 				}
 			}
+			if flat.ForkIndex(fs.Fork) >= 3 && i%4 == 1 {
+				// ProcessWithdrawals' whole state update over (registry size, sweep size, cursor, payload limit) grids:
+				// the same state under configuration variants, every cursor position
+				n := uint64(len(fs.Validators))
+				for _, sw := range []uint64{1, n - 1, n, n + 1, n + 3, 2*n + 1} {
+					for _, mw := range []uint64{1, 2, 16} {
+						sp := *c.Spec
+						sp.MAX_VALIDATORS_PER_WITHDRAWALS_SWEEP = view.Uint64View(sw)
+						sp.MAX_WITHDRAWALS_PER_PAYLOAD = view.Uint64View(mw)
+						g := *fs
+						g.NextWithdrawalValIdx = uint64(rng.Intn(int(n)))
+						stv, err := g.ToView(&sp)
+						if err != nil {
+							continue
+						}
+						ws, ok := stv.(capella.BeaconStateWithWithdrawals)
+						if !ok {
+							continue
+						}
+						exp, err := capella.GetExpectedWithdrawals(ws, &sp)
+						if err != nil {
+							continue
+						}
+						kind := "expected"
+						if rng.Intn(6) == 0 && len(exp) > 0 {
+							exp[rng.Intn(len(exp))].Amount++
+							kind = "amount+1"
+						} else if rng.Intn(8) == 0 {
+							exp = append(exp, common.Withdrawal{})
+							kind = "one-too-many"
+						}
+						recs := make([]string, len(exp))
+						for k, x := range exp {
+							recs[k] = fmt.Sprintf("%d:%d:%x:%d", x.Index, x.ValidatorIndex, x.Address[:], x.Amount)
+						}
+						pw := "-"
+						if len(recs) > 0 {
+							pw = strings.Join(recs, ";")
+						}
+						rel := "sweep<registry"
+						if sw == n {
+							rel = "sweep=registry"
+						} else if sw > n {
+							rel = "sweep>registry"
+						}
+						full := "not-full"
+						if uint64(len(exp)) == mw {
+							full = "full-payload"
+						}
+						st.Add("wdapply", rel+":"+full+":"+kind)
+						fmt.Fprintf(w, "wdapply pw=%s %s %s\n", pw, flat.SpecTokens(&sp), g.String())
+					}
+				}
+			}
 			if i%3 == 0 {
 				idx := rng.Intn(len(fs.Validators) + 1)
 				k := "in-range"
@@ -383,13 +438,48 @@ func pieceLine(line string) string {
 		copy(ob[:], b[3])
 		sr := common.ComputeSigningRoot(ob, common.ComputeDomain(t, v, g))
 		return hex.EncodeToString(sr[:])
-	case "withdrawals", "initexit":
+	case "withdrawals", "initexit", "wdapply":
 		if len(rest) != 1 {
 			return "bad-op"
 		}
 		p := loadPre(kv)
 		if p == nil {
 			return "bad-op"
+		}
+		if rest[0] == "wdapply" {
+			// capella.ProcessWithdrawals with the payload carrying exactly the expected withdrawals (or a corrupted list)
+			ws, ok := p.st.(capella.BeaconStateWithWithdrawals)
+			if !ok {
+				return "bad-op"
+			}
+			var wl common.Withdrawals
+			if w := kv["pw"]; w != "-" {
+				for _, rec := range strings.Split(w, ";") {
+					f := strings.Split(rec, ":")
+					if len(f) != 4 {
+						return "bad-op"
+					}
+					a, e1 := strconv.ParseUint(f[0], 10, 64)
+					b, e2 := strconv.ParseUint(f[1], 10, 64)
+					ad, e3 := hex.DecodeString(f[2])
+					am, e4 := strconv.ParseUint(f[3], 10, 64)
+					if e1 != nil || e2 != nil || e3 != nil || e4 != nil || len(ad) != 20 {
+						return "bad-op"
+					}
+					x := common.Withdrawal{Index: common.WithdrawalIndex(a), ValidatorIndex: common.ValidatorIndex(b), Amount: common.Gwei(am)}
+					copy(x.Address[:], ad)
+					wl = append(wl, x)
+				}
+			}
+			payload := &capella.ExecutionPayload{Withdrawals: wl}
+			if err := capella.ProcessWithdrawals(context.Background(), p.spec, ws, payload); err != nil {
+				return "err"
+			}
+			fs, err := flat.From(p.spec, p.st)
+			if err != nil {
+				return "err-dump"
+			}
+			return "ok " + fs.Abbrev()
 		}
 		if rest[0] == "withdrawals" {
 			ws, ok := p.st.(capella.BeaconStateWithWithdrawals)
